@@ -20,8 +20,12 @@ func (fx *FX) execInstr(st *State, in ssa.Instruction) {
 	switch x := in.(type) {
 	case *ssa.DebugRef:
 		if id, ok := x.Expr.(*ast.Ident); ok {
-			if _, dup := fx.names[id.Name]; !dup {
+			if old, dup := fx.names[id.Name]; !dup {
 				fx.names[id.Name] = x.X
+			} else if _, oldConst := old.(*ssa.Const); oldConst {
+				if _, newConst := x.X.(*ssa.Const); !newConst {
+					fx.names[id.Name] = x.X
+				}
 			}
 			if !x.IsAddr {
 				if _, isParam := x.X.(*ssa.Parameter); !isParam {
